@@ -258,14 +258,8 @@ impl<'a, R: RealNumberInternalTrait> Interpreter<'a, R> {
         Ok((first.expect_procedure()?, evaluated_args_result))
     }
 
-    pub fn apply_procedure(
-        initial_procedure: &Procedure<R>,
-        mut args: ArgVec<R>,
-        env: &Rc<Environment<R>>,
-    ) -> Result<Value<R>> {
-        let formals = initial_procedure.get_parameters();
-        // let args = args.into_iter();
-        // formals.iter_to_last(|formal| args.next)
+    fn check_arity(procedure: &Procedure<R>, args: &ArgVec<R>) -> Result<()> {
+        let formals = procedure.get_parameters();
         let (fixed_len, has_variadic) = formals.len();
         if args.len() < fixed_len || (args.len() > fixed_len && !has_variadic) {
             return error!(LogicError::ArgumentMissMatch(
@@ -273,6 +267,15 @@ impl<'a, R: RealNumberInternalTrait> Interpreter<'a, R> {
                 args.iter().join(" ")
             ));
         }
+        Ok(())
+    }
+
+    pub fn apply_procedure(
+        initial_procedure: &Procedure<R>,
+        mut args: ArgVec<R>,
+        env: &Rc<Environment<R>>,
+    ) -> Result<Value<R>> {
+        Self::check_arity(initial_procedure, &args)?;
         let mut current_procedure = None;
         loop {
             match if current_procedure.is_none() {
@@ -300,6 +303,8 @@ impl<'a, R: RealNumberInternalTrait> Interpreter<'a, R> {
                                 tail_arguments,
                                 last_env,
                             )?;
+                            // a tail call is a call: its arguments must fit its parameters too
+                            Self::check_arity(&tail_procedure, &tail_args)?;
                             current_procedure = Some(tail_procedure);
                             args = tail_args;
                         }
